@@ -13,6 +13,7 @@ CONSTANTS
   Page = 4
   MaxOs = 2
   MaxReps = 0
+  Base0 = 2
   TrackC04 = FALSE
   Disciplined = FALSE
 INIT Init
